@@ -24,6 +24,18 @@ CHECKS = {
         note="Trusted: CPython, renderer, reference. Single-inheritance chains only (DAGs: C04). StopIteration bodies excluded.",
         technique="explicit exhaustive enumeration on the real code, reference-interpreter oracle on event logs and object identity",
         design="3/C02"),
+    "C03": dict(
+        text="History exploration on the real classes: class shapes (plain, __slots__, dataclass, NamedTuple, no __init__, user "
+             "__new__, user __getattribute__; object or DBC; DBC children adding invariants / overriding / adding members, "
+             "constructors calling super().__init__() first/middle/last/never/absent) x 1-2 invariants with all check_on "
+             "combinations in both decorator orders x construct followed by every sequence of <=2 operations from a 15-17 entry "
+             "member table x 'the k-th invariant evaluation is falsy' for every k in the last and the first operation. A monitor "
+             "derived from the statement judges each step (which invariants, how often, before/after the body, none around "
+             "exempt members, none while a constructor is on the stack, recovery after a violation).",
+        note="Trusted: CPython, renderer, monitor. Slot wrappers inherited from object/tuple are not triggered (statement silent). "
+             "Three recorded defects (KF-C03-1..3) are matched by narrow predicates.",
+        technique="exhaustive operation-history enumeration with single-fault truth sequences on the real classes, statement-derived monitor",
+        design="3/C03"),
     "C04": dict(
         text="Exhaustive exploration of class hierarchies on DBC (single, chains of 2-3, two bases in both orders, diamond, "
              "Y shape; <=4 classes) x member kind (method, static, class method, property get/set/del) x every per-class "
